@@ -20,6 +20,8 @@ struct Registry {
     double_drops: Vec<u64>,
     created: u64,
     dropped: u64,
+    /// identity-less (zero-sized) values: created / dropped counts per tag
+    anon: HashMap<&'static str, (u64, u64)>,
 }
 
 static REGISTRY: Mutex<Option<Registry>> = Mutex::new(None);
@@ -118,6 +120,21 @@ impl Summary {
     }
 }
 
+/// A zero-sized value cannot carry an id: its creations and drops are counted per tag.
+pub fn anon_created(tag: &'static str) {
+    with(|r| {
+        r.anon.entry(tag).or_default().0 += 1;
+        r.created += 1;
+    });
+}
+
+pub fn anon_dropped(tag: &'static str) {
+    with(|r| {
+        r.anon.entry(tag).or_default().1 += 1;
+        r.dropped += 1;
+    });
+}
+
 /// Forgets everything (start of a case).
 pub fn reset() {
     with(|r| *r = Registry::default());
@@ -132,11 +149,21 @@ pub fn summary() -> Summary {
             .map(|(id, (_, tag))| (*id, *tag))
             .collect();
         alive.sort_unstable();
+        let mut double_drops = r.double_drops.clone();
+        for (tag, (c, d)) in &r.anon {
+            // id 0 stands for "some value with this tag"
+            for _ in 0..c.saturating_sub(*d) {
+                alive.push((0, *tag));
+            }
+            for _ in 0..d.saturating_sub(*c) {
+                double_drops.push(0);
+            }
+        }
         Summary {
             created: r.created,
             dropped: r.dropped,
             alive,
-            double_drops: r.double_drops.clone(),
+            double_drops,
         }
     })
 }
